@@ -10,5 +10,5 @@ PROP = dict(level="model_checking", parts=[
 ])
 TEXT = dict(engine="bsx", design_ref="DESIGN.md §3 C17",
    technique="explicit-state BFS over operation histories (write / reopen with each access level / read; and several overlapping handles plus derived objects on one file in one process) on real HDF5 checkpoint files vs a std::map reference model, ASan on harness + xtp sources",
-   level_text="Every history up to the stated depth over the stated typed value alphabet, group paths and names is replayed on its own HDF5 file through CheckpointFile/Writer/Reader/CptTable; afterwards a fresh read-only handle reads every slot and is compared bit for bit with the reference map (never-written names must raise, read-only handles must reject writes and leave the file bytes unchanged). A sizes phase writes, overwrites and re-reads every container kind with 0..101 (thorough 1001) distinct elements, tables also row by row. A process-state family creates a table with compact=true|false (openTable or the public CptTable constructor) and then writes values above 64 KiB anywhere in the same process, and writes every value kind under one global C++ locale (classic / thousands grouping / decimal comma) and reads it under another. A further family explores 2-3 simultaneously open CheckpointFile slots (and readers/writers/tables outliving them) on one file: a READ-level handle must refuse getWriter whatever else is open, every handle reads the last write. States/transitions are counted; every transition is a trace validated on the implementation.",
+   level_text="Every history up to the stated depth over the stated typed value alphabet, group paths and names is replayed on its own HDF5 file through CheckpointFile/Writer/Reader/CptTable; afterwards a fresh read-only handle reads every slot and is compared bit for bit with the reference map (never-written names must raise, read-only handles must reject writes and leave the file bytes unchanged). A sizes phase writes, overwrites and re-reads every container kind with 0..101 (thorough 1001) distinct elements, tables also row by row. An expression phase hands every Eigen expression shape (rows, columns, blocks, strips, transposes, strided Maps, segments; both storage orders; double/float/Index) to the MatrixBase overloads. A process-state family creates a table with compact=true|false (openTable or the public CptTable constructor) and then writes values above 64 KiB anywhere in the same process, and writes every value kind under one global C++ locale (classic / thousands grouping / decimal comma) and reads it under another. A further family explores 2-3 simultaneously open CheckpointFile slots (and readers/writers/tables outliving them) on one file: a READ-level handle must refuse getWriter whatever else is open, every handle reads the last write. States/transitions are counted; every transition is a trace validated on the implementation.",
    level_note="Trusted: the reference map and canonical byte strings; system HDF5 1.10 (not instrumented; ASan sees its memcpy traffic); values/paths off the alphabet and reads with a type other than the one written are not covered.")
